@@ -66,6 +66,12 @@ theorem rejects_iff_ill_typed (p : PProg) : (check p).any (fun d => d.level == .
       have := hh d hd
       simpa [notError] using this
 
+/-- `TypeCheck` decides exactly structural compatibility: element-, field-, parameter- and
+result-wise, `any` accepts everything, `never` / `unknown` fit everywhere, function values only
+where they are admitted. -/
+theorem typecheck_decides_compatibility (a : Bool) (got exp : Ty) :
+    typeCheck a got exp = none ↔ Compatible a got exp := typeCheck_iff exp a got
+
 /-- Expression level: the checker's verdict and attributes coincide with the typing relation. -/
 theorem expr_check_iff (Γ : Ctx) (s : Bool) (e : PExpr) (t : Ty) (x c : Bool) (l : List Ty) :
     HasType Γ s e t x c l ↔ checkExpr Γ s e = { errs := [], ty := t, ex := x, cst := c, tys := l } := by
@@ -319,6 +325,11 @@ example : hasErr (faulty [.letS "x" none (.list .nil)]) .implicitAny = true := b
 example : hasErr ⟨[], []⟩ .mainShape = true := by decide +kernel
 example : hasErr ⟨[], [⟨"main", [("a", .name "int")], .name "null", 0, body []⟩]⟩ .mainShape = true := by decide +kernel
 example : hasErr ⟨[], [⟨"main", [], .name "int", 0, .mk .nil (.int 1)⟩]⟩ .mainShape = true := by decide +kernel
+
+example : Compatible true (.fn [("a", .int), ("b", .list .never)] .never) (.fn [("b", .list .str), ("a", .any)] (.opt .int)) :=
+  (typecheck_decides_compatibility _ _ _).mp (by decide +kernel)
+example : ¬ Compatible false (.obj [("a", .int), ("b", .str)]) (.obj [("a", .int)]) :=
+  fun h => absurd ((typecheck_decides_compatibility _ _ _).mpr h) (by decide +kernel)
 
 /-- template decision table: the required method with a wrong parameter type is reported, the
 matching implementation is not -/
